@@ -327,6 +327,9 @@ func runMw(fields []string) string {
 		restore := mwSilenceStd()
 		defer restore()
 	}
+	// options are plain values: the same option values configure a first router, then the one under test (an option that
+	// keeps state between applications would show here)
+	_, _ = fox.New(gopts...)
 	r, err := fox.New(gopts...)
 	if err != nil {
 		return "I=invalidConfig"
